@@ -26,7 +26,7 @@ func init() {
 	children["c07"] = c07Child
 }
 
-const c07Kinds = 7
+const c07Kinds = 8
 
 var collidePaths = []string{"a.b/x", "c.d/x", "e.f/x", "g.h/x", "i.j/X", "k.l/x/", "m.n/y", "o.p/y", "fmt", "x.y/fmt", "math/rand", "crypto/rand"}
 
@@ -154,6 +154,36 @@ func c07RecipeFormatted(kind int, seed int64, rec *visitRec) (f *jen.File, small
 	case 4: // Dicts of the C16 generator (duplicates, null sides)
 		ps := genDict(r)
 		return buildDictFile(ps, r.Intn(2) == 0, r.Intn(2) == 0, rec), len(ps), dictDesc(ps)
+	case 6: // nested Dicts whose keys render identically (different values), under outer pairs that only differ
+		// inside the nested Dict, followed by references that compete for aliases
+		f = jen.NewFile("p")
+		inner := func(vals ...int) jen.Code {
+			d := jen.Dict{}
+			for _, v := range vals {
+				d[jen.Id("k").Call()] = jen.Lit(v) // distinct Code values, same key text
+			}
+			return jen.Id("M").Values(d)
+		}
+		outer := jen.Dict{}
+		n := 2 + r.Intn(3)
+		for i := 0; i < n; i++ {
+			if r.Intn(2) == 0 {
+				outer[jen.Id("o").Call()] = inner(1, 2+i, 1+r.Intn(3))
+			} else {
+				outer[inner(1, 2+i)] = jen.Qual(collidePaths[r.Intn(4)], "V")
+			}
+		}
+		f.Var().Id("a").Op("=").Id("MM").Values(outer)
+		for i := 0; i < 3; i++ {
+			f.Var().Id(fmt.Sprintf("after%d", i)).Op("=").Qual(collidePaths[r.Intn(6)], "W")
+		}
+		// a hint table that lists one path with and without a trailing slash under different names
+		if r.Intn(2) == 0 {
+			f.ImportNames(map[string]string{"t.s/store": "store", "t.s/store/": "storage", "u.v/w": "w"})
+			f.Var().Id("s1").Op("=").Qual("t.s/store", "Open")
+			f.Var().Id("s2").Op("=").Qual("t.s/store/", "Open")
+		}
+		return f, 2, "nested-dicts-with-identical-inner-keys"
 	case 5: // Dicts whose colliding qualified keys carry nested Dicts with colliding qualified keys
 		f = jen.NewFile("p")
 		inner := func() jen.Dict {
